@@ -17,6 +17,8 @@ EXPLANATION = (
     "own constructors under a DataFormat built by DataFormat.__init__ for each of the four formats: construction must "
     "never fail with AttributeError (a property that exists for some formats only must not be read unguarded), so each "
     "field type loads under every Format property. Equality of verdicts across formats beyond these is not decided."
+    " Added in rounds 6 and 7: (O17.6/O17.7) the Excel reader's cell texts (C16's table) and the delimited"
+    " reader's untranslated line ends (C12's newline rule) are obligations of C17 as well."
 )
 ASSUMPTIONS = ["the readers deliver the same logical table for the same contents (C12, C13, C15, C16)"]
 
